@@ -237,7 +237,10 @@ impl TypeChecker {
         }
 
         // Check required methods (those without body)
-        for (method_name, method_info) in &trait_info.methods {
+        // `methods` is a hash map: walk it in name order so that the diagnostics come out the same in every run.
+        let mut required: Vec<_> = trait_info.methods.iter().collect();
+        required.sort_by(|a, b| a.0.cmp(b.0));
+        for (method_name, method_info) in required {
             if !method_info.has_body {
                 // Prefer symbol-table method info so we can validate signatures.
                 let model_info = self
@@ -382,7 +385,10 @@ impl TypeChecker {
         }
 
         // Check required methods (those without body)
-        for (method_name, method_info) in &trait_info.methods {
+        // `methods` is a hash map: walk it in name order so that the diagnostics come out the same in every run.
+        let mut required: Vec<_> = trait_info.methods.iter().collect();
+        required.sort_by(|a, b| a.0.cmp(b.0));
+        for (method_name, method_info) in required {
             if !method_info.has_body {
                 match class_info.as_ref().and_then(|ci| ci.methods.get(method_name)) {
                     None => self
